@@ -2,6 +2,7 @@
 from __future__ import annotations
 
 import base64
+import copy
 import bz2
 import gzip
 import io
@@ -533,7 +534,19 @@ def execute(ctx, case):
     try:
         with warnings.catch_warnings():
             warnings.simplefilter("ignore")  # compatibility RuntimeWarnings are allowed, errors are not
-            got = list(RecordStreamReader(io.BytesIO(data)))
+            got = []
+            for r in RecordStreamReader(io.BytesIO(data)):
+                got.append(r)
+                if case["s"] % 2:
+                    # the consumer looks at each record through other public surfaces while the stream is being read:
+                    # observing a record or its descriptor must not change how later frames are decoded
+                    d = getattr(r, "_desc", None)
+                    repr(r), r._asdict(), hash(d), copy.copy(r)
+                    if d is not None:
+                        d.get_all_fields(), d.getfields("string"), d.get_field_tuples(), repr(d), d.identifier
+                        if hasattr(d, "definition"):
+                            d.definition()
+                    ctx.event("ref_records_observed_through_other_surfaces_while_reading")
             for r in got:
                 observe.assert_typed(r, "ref-encoded")
     except Exception as e:  # noqa: BLE001
